@@ -26,6 +26,32 @@ theorem stepInput_sim (cfg : Cfg) (hcfg : cfgOk cfg = true) (s : Sess) (i : Inpu
       rw [mstep_hangup _ _ _ (absPhase_open s hc') rfl hfc hf0 hfp]
       simp [mstateOf, absPhase, hfc, hf0, hfp]
 
+/-- `mstep` does not look at the media observation -/
+theorem mstep_media (f : Flavour) (st : MState) (o : Obs) (b : Bool) :
+    mstep f st { o with media := b } = mstep f st o := rfl
+
+/-- every observation the model produces carries the session id -/
+theorem obsOf_sid (i : Input) (evs : List Ev) (c : Nat) (p cl : Bool) : (obsOf i evs c p cl).sidOk = true := by
+  cases i <;> rfl
+
+/-- a session that holds a consumer is in the playing phase -/
+theorem role_playing (s : Sess) (hinv : SInv s) (h : s.role ≠ .none) : (mstateOf s).phase = .playing := by
+  cases hc : s.closed with
+  | true => exact absurd (hinv.closedClean hc).1 h
+  | false =>
+    cases hs : s.status with
+    | init => exact absurd (hinv.initClean hc hs).1 h
+    | ready => exact absurd (hinv.ready hc hs).1 h
+    | playing => simp [mstateOf, absPhase, hc, hs]
+    | recording => exact absurd (hinv.recording hc hs).1 h
+
+/-- `mguard` accepts exactly what `mstep` accepts, plus the media clause -/
+theorem mguard_ok (f : Flavour) (st st' : MState) (o : Obs) (h : mguard f st o = .ok st') : mstep f st o = .ok st' := by
+  unfold mguard at h
+  split at h
+  · cases h
+  · exact h
+
 /-- every dialogue of the model is accepted by the reference automaton, from any invariant state -/
 theorem trace_mrun (cfg : Cfg) (hcfg : cfgOk cfg = true) (ins : List Input) (s : Sess) (hinv : SInv s)
     (hwf : ∀ i ∈ ins, i.wf) :
@@ -35,7 +61,20 @@ theorem trace_mrun (cfg : Cfg) (hcfg : cfgOk cfg = true) (ins : List Input) (s :
   | cons i is ih =>
     obtain ⟨hi, hm⟩ := stepInput_sim cfg hcfg s i hinv (hwf i (by simp))
     simp only [trace, final, mrun]
-    rw [hm]
+    have hmedia : mediaOk .rtsp (mstateOf s)
+        { obsOf i (stepInput cfg s i).2 (stepInput cfg s i).1.consumers (stepInput cfg s i).1.pusher (stepInput cfg s i).1.closed with
+          sidOk := cfg.sidCarried, media := s.role == .tcp } = true := by
+      by_cases hr : s.role = .tcp
+      · have := role_playing s hinv (by rw [hr]; simp)
+        simp [mediaOk, this]
+      · simp [mediaOk, hr]
+    have hsid : ({ obsOf i (stepInput cfg s i).2 (stepInput cfg s i).1.consumers (stepInput cfg s i).1.pusher (stepInput cfg s i).1.closed with
+          sidOk := cfg.sidCarried, media := s.role == .tcp } : Obs) =
+        { obsOf i (stepInput cfg s i).2 (stepInput cfg s i).1.consumers (stepInput cfg s i).1.pusher (stepInput cfg s i).1.closed with
+          media := s.role == .tcp } := by
+      rw [cfgOk_sid hcfg, ← obsOf_sid i (stepInput cfg s i).2 (stepInput cfg s i).1.consumers (stepInput cfg s i).1.pusher (stepInput cfg s i).1.closed]
+    simp only [mguard, hmedia, Bool.not_true, Bool.false_eq_true, ↓reduceIte]
+    rw [hsid, mstep_media, hm]
     exact ih _ hi (fun j hj => hwf j (by simp [hj]))
 
 /-! ### what a phase says about the history -/
@@ -174,11 +213,11 @@ theorem mrun_need (f : Flavour) (os : List Obs) (st st' : MState) (H : List (Met
   | nil => simp [mrun] at hs; subst hs; simpa [history] using hn
   | cons o r ih =>
     simp only [mrun] at hs
-    cases hm : mstep f st o with
+    cases hm : mguard f st o with
     | error c => rw [hm] at hs; cases hs
     | ok st1 =>
       rw [hm] at hs
-      have := ih st1 (H ++ history [o]) hs (mstep_need f st st1 o H hm hn)
+      have := ih st1 (H ++ history [o]) hs (mstep_need f st st1 o H (mguard_ok f st st1 o hm) hn)
       rw [show o :: r = [o] ++ r from rfl, history_append, ← List.append_assoc]
       exact this
 
